@@ -476,6 +476,40 @@ def exhaustive(ck, run):
           run.bundle(steps)
 
 
+def reuse_freed_ids(ck, run):
+  """Fixed family, run in full on every tier: the bundle first REMOVES the row(s) holding the highest row id of T
+  (so that the allocator hands that id out again), then adds by temporary id and USES the temporary id (as the
+  target of an update / removal, as a Ref / RefList value in T and in U).  The id a temporary id resolves to is
+  then one that existed before the bundle."""
+  run.clear()
+  setup = [["BulkAddRecord", "T", [1, 2, 3], {"a": [10, 20, 30], "r": [2, 0, 1], "rl": [["L", 1, 2], None, ["L", 3]]}],
+           ["BulkAddRecord", "U", [1], {"b": [5], "t": [2], "tl": [["L", 2, 1]]}]]
+  r = run.doc.apply(setup)
+  assert r.ok, r.error
+  run.history.append(setup)
+  run.base = run.doc.snapshot()
+  frees = [{"k": "remove", "t": "T", "rows": [3], "single": True}, {"k": "remove", "t": "T", "rows": [3]},
+           {"k": "remove", "t": "T", "rows": [2, 3]}]
+  adds = [([-1], True), ([-1], False), ([-1, -2], False), ([None, -1], False)]
+  uses = [{"k": "update", "t": "T", "rows": [-1], "vals": {"a": [0]}, "single": True},
+          {"k": "update", "t": "T", "rows": [-1], "vals": {"a": [0], "r": [-1]}},
+          {"k": "remove", "t": "T", "rows": [-1], "single": True},
+          {"k": "add", "t": "U", "req": [None], "vals": {"b": [0], "t": [-1], "tl": [[-1]]}},
+          {"k": "update", "t": "T", "rows": [1], "vals": {"a": [0], "rl": [[-1, 1]]}},
+          {"k": "add", "t": "T", "req": [-3], "vals": {"a": [0], "r": [-1]}, "single": True}]
+  for f in frees:
+    for (req, single) in adds:
+      for u in uses:
+        steps = [copy.deepcopy(f),
+                 {"k": "add", "t": "T", "req": list(req), "vals": {"a": [run.mark() for _ in req]}, "single": single},
+                 copy.deepcopy(u)]
+        m = MARK[steps[2]["t"]]
+        if m in steps[2].get("vals", {}):
+          steps[2]["vals"][m] = [run.mark() for _ in steps[2]["vals"][m]]
+        run.bundle(steps)
+        ck.count("reuse_freed_id_bundles")
+
+
 class Gen(object):
   """Random bundles aware of what exists (rows) and what the bundle has allocated so far."""
 
@@ -661,6 +695,7 @@ def run(ck):
   ck.lean(["GristProps.C26"])
   run_ = Runner(ck)
   exhaustive(ck, run_)
+  reuse_freed_ids(ck, run_)
   random_histories(ck, run_)
   side_observations(ck, run_.doc)
   compare_with_model(ck, run_.cases)
